@@ -295,6 +295,16 @@ func ruleC02_4(c *Ctx, r *Rep) {
 					{"Attributes", []string{"field:Attributes"}, contentForbid("field:Attributes")},
 					{"OrderKey", []string{"field:OrderingKey"}, contentForbid("field:OrderingKey")},
 				})
+				// …and from THIS message: the value is not read from a fixed element of the request's message list
+				for _, fld := range []string{"Payload", "Attributes", "OrderKey"} {
+					for _, sto := range st[fld] {
+						if ix := constIndexed(sto.Val, 0); ix != nil {
+							r.Fail("C02.4", "C02.4:this-message:"+fld+"@Publish", sto.Pos(), "PublishMessageParams."+fld+" is read from a fixed element of a list (index "+ix.Index.Name()+"), not from the message being published: every message of a batch is stored with the first one's value (mixed ordering keys lose their order, payloads are duplicated)")
+						} else {
+							r.OK("C02.4", "C02.4:this-message:"+fld+"@Publish", sto.Pos(), "")
+						}
+					}
+				}
 				// each message's parameters are written for that message: every content field is stored on every path
 				// to the constructor call (a parameter struct hoisted out of the loop with one field set only under a
 				// condition carries the previous message's value over)
@@ -675,4 +685,33 @@ func isErrCtor(call *ssa.Call) bool {
 	}
 	p := fnPkgPath(cal)
 	return (p == "errors" && cal.Name() == "New") || (p == "fmt" && cal.Name() == "Errorf") || strings.HasSuffix(p, "grpc/status")
+}
+
+// constIndexed: the value is loaded (through fields, conversions, loads) from a slice element at a constant index.
+func constIndexed(v ssa.Value, d int) *ssa.IndexAddr {
+	for ; d < 12 && v != nil; d++ {
+		switch x := v.(type) {
+		case *ssa.Convert:
+			v = x.X
+		case *ssa.ChangeType:
+			v = x.X
+		case *ssa.UnOp:
+			if x.Op != token.MUL {
+				return nil
+			}
+			v = x.X
+		case *ssa.FieldAddr:
+			v = x.X
+		case *ssa.Field:
+			v = x.X
+		case *ssa.IndexAddr:
+			if _, isK := x.Index.(*ssa.Const); isK {
+				return x
+			}
+			return nil
+		default:
+			return nil
+		}
+	}
+	return nil
 }
